@@ -194,6 +194,60 @@ pub fn do_pull(pre: &Raw, c: &[u8], ad: Option<&[u8]>, object_api: bool) -> Resu
             return Err(("reject-mutates-state", "a rejected pull changed the pull state".into()));
         }
     }
+    // the same pull into a roomy caller buffer (slack 1, 17 or 64 bytes): same verdict, same
+    // message and tag, same state, and nothing written past the message
+    {
+        let slack = [1usize, 17, 64][c.len() % 3];
+        let mlen = c.len().saturating_sub(17);
+        let mut st2 = mk_state(pre);
+        let r = guarded(AssertUnwindSafe(|| {
+            let mut m = vec![0x5au8; mlen + slack];
+            let mut tag = 0x77u8;
+            ss::crypto_secretstream_xchacha20poly1305_pull(&mut st2, &mut m, &mut tag, c, ad).map(|n| (m, n, tag))
+        }));
+        match r {
+            Err(p) => return Err(("panic", format!("classic pull into a buffer with {} spare bytes panicked: {}", slack, p))),
+            Ok(Ok((m, n, tag))) => {
+                let same = dry.as_ref().map(|(dm, dt)| n == dm.len() && &m[..n] == &dm[..] && tag == *dt).unwrap_or(false);
+                if !same {
+                    return Err(("verdict-differs", format!("pull into a buffer with {} spare bytes disagrees with the exact-fit pull", slack)));
+                }
+                if m[n..].iter().any(|b| *b != 0x5a) {
+                    return Err(("message-differs", format!("pull into a buffer with {} spare bytes wrote past the message", slack)));
+                }
+            }
+            Ok(Err(_)) => {
+                if dry.is_some() {
+                    return Err(("verdict-differs", format!("pull into a buffer with {} spare bytes rejected what the exact-fit pull accepts", slack)));
+                }
+            }
+        }
+        if st2.verif_parts() != post {
+            return Err(("state-differs", format!("pull into a buffer with {} spare bytes leaves a different state", slack)));
+        }
+    }
+    // a pull refused because the caller's buffer is too small is a rejected pull too: the
+    // state must be exactly as it was (a panic instead of Err is left to the implementation)
+    if c.len() > 17 {
+        let mlen = c.len() - 17;
+        for short in [mlen - 1, mlen / 2, 0] {
+            let mut st3 = mk_state(pre);
+            let r = guarded(AssertUnwindSafe(|| {
+                let mut m = vec![0x5au8; short];
+                let mut tag = 0x77u8;
+                ss::crypto_secretstream_xchacha20poly1305_pull(&mut st3, &mut m, &mut tag, c, ad).is_ok()
+            }));
+            match r {
+                Ok(true) => return Err(("verdict-differs", format!("pull of a {}-byte message into a {}-byte buffer returned Ok", mlen, short))),
+                Ok(false) => {
+                    if st3.verif_parts() != *pre {
+                        return Err(("reject-mutates-state", format!("a pull refused for its {}-byte buffer (message {} bytes) changed the pull state", short, mlen)));
+                    }
+                }
+                Err(_) => {}
+            }
+        }
+    }
     if object_api {
         let cv = c.to_vec();
         let adv = ad.map(|a| a.to_vec());
